@@ -41,6 +41,7 @@ CATEGORIES = [
     ("exception message", "exception-message"),
     ("result differs", "result"),
     ("call-stack length", "call-stack"),
+    ("call chain differs", "call-chain"),
     ("scope state", "scope-depth"),
 ]
 
@@ -125,7 +126,7 @@ def shrink(chk, prog, label, mode, repeat, ins, budget=14):
 
 
 def run_property(chk, pid, label, profiles, n_quick, n_thorough, replay=None, mode="vm", repeat=1,
-                 extra_programs=None, layouts=False, what="", do_shrink=True):
+                 extra_programs=None, layouts=False, what="", do_shrink=True, decorate=False, extra_check=None):
     """profiles: list of (weight, Profile). extra_programs: list of (prog, inputs, kind)."""
     rng = chk.rng
     progs, ins, kinds = [], [], []
@@ -156,7 +157,9 @@ def run_property(chk, pid, label, profiles, n_quick, n_thorough, replay=None, mo
             ins.append({})
             kinds.append("generated")
     lay = random.Random(rng.random()) if layouts else None
-    bad, texts = semcheck.run_diff(chk, progs, label, mode=mode, repeat=repeat, inputs=ins, rng_layout=lay)
+    dec = random.Random(rng.random()) if decorate else None
+    bad, texts = semcheck.run_diff(chk, progs, label, mode=mode, repeat=repeat, inputs=ins, rng_layout=lay, decorate=dec,
+                                   extra_check=extra_check)
     for k in kinds:
         chk.dist("source:" + k)
     for t in texts[:3] + texts[len(texts) // 2:len(texts) // 2 + 2]:
